@@ -31,6 +31,9 @@ pub struct Deviations {
     pub open_type_empty_len0: bool,
     /// DEFAULT extension additions are not wrapped as open types
     pub default_addition_inline: bool,
+    /// extensible INTEGER whose root has an open end ((0..MAX,...), (MIN..MAX,...), (lb..MAX,...), (MIN..ub,...)):
+    /// the root is treated as lb-or-0 .. ub-or-2^63-1 and encoded as constrained whole number
+    pub int_ext_open_root_as_constrained: bool,
 }
 
 pub const ALL_CLASSES: &[&str] = &[
@@ -43,6 +46,7 @@ pub const ALL_CLASSES: &[&str] = &[
     "len-large-ub",
     "open-empty",
     "default-addition",
+    "int-ext-open-root",
 ];
 
 impl Deviations {
@@ -57,6 +61,7 @@ impl Deviations {
             "len-large-ub" => self.len_large_ub_as_constrained = on,
             "open-empty" => self.open_type_empty_len0 = on,
             "default-addition" => self.default_addition_inline = on,
+            "int-ext-open-root" => self.int_ext_open_root_as_constrained = on,
             _ => return false,
         }
         true
@@ -289,11 +294,47 @@ pub struct Enc<'a> {
     pub dev: Deviations,
     /// deviation-capable rule classes that were applicable to this (type, value)
     pub classes: BTreeSet<&'static str>,
+    /// constraint classes of the profile that this (type, value) exercised (C02 coverage floor)
+    pub cells: BTreeSet<String>,
+}
+
+pub fn range_class(r: u128) -> &'static str {
+    match r {
+        1 => "1",
+        2 => "2",
+        3..=255 => "3-255",
+        256 => "256",
+        257..=65535 => "257-65535",
+        65536 => "65536",
+        _ if r < (1u128 << 32) => ">65536",
+        _ if r < (1u128 << 62) => ">=2^32",
+        _ => ">=2^62",
+    }
+}
+
+pub fn size_class(size: &Size, n: usize) -> String {
+    let form = match size.bounds() {
+        None => "unconstrained".to_string(),
+        Some((lb, Some(ub))) if lb == ub => format!("fixed{}", if ub <= 16 { "<=16" } else if ub < 65536 { "<64K" } else { ">=64K" }),
+        Some((_, Some(ub))) => format!("range-ub{}", if ub < 65536 { "<64K" } else { ">=64K" }),
+        Some((_, None)) => "semi".to_string(),
+    };
+    let in_root = match size.bounds() {
+        None => true,
+        Some((lb, ub)) => n as u64 >= lb && ub.map(|u| n as u64 <= u).unwrap_or(true),
+    };
+    let len = match n {
+        0 => "0",
+        1..=127 => "<128",
+        128..=16383 => "<16K",
+        _ => ">=16K",
+    };
+    format!("{}{}:len{}", form, if size.ext() { if in_root { ":ext-in-root" } else { ":ext-out-of-root" } } else { "" }, len)
 }
 
 impl<'a> Enc<'a> {
     pub fn new(u: &'a Universe, dev: Deviations) -> Self {
-        Enc { u, dev, classes: BTreeSet::new() }
+        Enc { u, dev, classes: BTreeSet::new(), cells: BTreeSet::new() }
     }
 
     pub fn encode_def(&mut self, mi: usize, name: &str, v: &Val) -> Result<BitOut, String> {
@@ -332,10 +373,12 @@ impl<'a> Enc<'a> {
                     if ext.is_some() {
                         out.push(false);
                     }
+                    self.cells.insert(format!("enumerated:root-items-{}{}", range_class(root.len() as u128), if ext.is_some() { ":ext" } else { "" }));
                     cwn(out, 0, root.len() as i128 - 1, per_idx as i128);
                     Ok(())
                 } else {
                     let e = ext.as_ref().ok_or("enum index out of range")?;
+                    self.cells.insert(format!("enumerated:addition-index{}", if idx - root.len() < 64 { "<64" } else { ">=64" }));
                     let k = idx - root.len();
                     if k >= e.len() {
                         return Err("enum index out of range".into());
@@ -346,10 +389,12 @@ impl<'a> Enc<'a> {
                 }
             }
             (Type::BitString { size, .. }, Val::Bits(b)) => {
+                self.cells.insert(format!("bitstring:{}", size_class(size, b.len())));
                 self.note_len_class(size);
                 sized(out, size, b.len(), &mut |o, i| o.push(b[i]), self.dev.len_large_ub_as_constrained)
             }
             (Type::OctetString { size }, Val::Bytes(b)) => {
+                self.cells.insert(format!("octetstring:{}", size_class(size, b.len())));
                 self.note_len_class(size);
                 sized(
                     out,
@@ -361,6 +406,7 @@ impl<'a> Enc<'a> {
             }
             (Type::CharString { cs: Charset::Utf8, .. }, Val::Str(s)) => {
                 let b = s.as_bytes();
+                self.cells.insert(format!("utf8string:{}", size_class(&Size::None, b.len())));
                 frag(out, b.len(), &mut |o, i| o.push_uint(b[i] as u128, 8));
                 Ok(())
             }
@@ -369,6 +415,7 @@ impl<'a> Enc<'a> {
                 for c in s.chars() {
                     codes.push(char_code(*cs, c)?);
                 }
+                self.cells.insert(format!("{}:{}", cs.asn_name(), size_class(size, codes.len())));
                 self.note_len_class(size);
                 sized(
                     out,
@@ -387,6 +434,7 @@ impl<'a> Enc<'a> {
                     self.encode(mi, elem, e, &mut o)?;
                     items.push(o.bits);
                 }
+                self.cells.insert(format!("list:{}", size_class(size, items.len())));
                 self.note_len_class(size);
                 sized(
                     out,
@@ -411,6 +459,7 @@ impl<'a> Enc<'a> {
                     if ext.is_some() {
                         out.push(false);
                     }
+                    self.cells.insert(format!("choice:root-alternatives-{}{}", range_class(root.len() as u128), if ext.is_some() { ":ext" } else { "" }));
                     cwn(out, 0, root.len() as i128 - 1, per_idx as i128);
                     self.encode(mi, &root[*idx].ty, inner, out)
                 } else {
@@ -422,6 +471,7 @@ impl<'a> Enc<'a> {
                     nsnn(out, k as u128);
                     let mut o = BitOut::new();
                     self.encode(mi, &extv[k].ty, inner, &mut o)?;
+                    self.cells.insert(format!("choice:addition:open-type-octets-{}", match (o.len() + 7) / 8 { 0 => "0", 1..=127 => "<128", _ => ">=128" }));
                     if o.is_empty() {
                         self.classes.insert("open-empty");
                     }
@@ -433,26 +483,57 @@ impl<'a> Enc<'a> {
         }
     }
 
-    fn note_len_class(&mut self, size: &Size) {
-        if let Some((_, ub)) = size.bounds() {
-            if ub.map(|u| u >= 65536).unwrap_or(true) {
-                self.classes.insert("len-large-ub");
-            }
-        }
+    fn note_len_class(&mut self, _size: &Size) {
+        // "len-large-ub" was repaired in /repo (see known_findings.json, fixed); the rule switch is kept for the record
     }
 
     fn encode_int(&mut self, c: &Option<IntC>, n: i128, out: &mut BitOut) -> Result<(), String> {
         let (root, ext) = int_root(c);
         let in_root = in_int_root(root, n);
+        if ext && !matches!(root, IntRoot::Constrained(..)) {
+            self.classes.insert("int-ext-open-root");
+            self.cells.insert("integer:ext-open-root".to_string());
+            if self.dev.int_ext_open_root_as_constrained {
+                let (lo, hi) = match root {
+                    IntRoot::Semi(a) => (a, i64::MAX as i128),
+                    IntRoot::UpperOnly(b) => (0, b),
+                    _ => (0, i64::MAX as i128),
+                };
+                let inr = n >= lo && n <= hi;
+                out.push(!inr);
+                if inr {
+                    if hi - lo > i64::MAX as i128 {
+                        return Err("deviation-model:refused".into());
+                    }
+                    cwn(out, lo, hi, n);
+                } else {
+                    unc(out, n);
+                }
+                return Ok(());
+            }
+            out.push(!in_root);
+            match (in_root, root) {
+                (true, IntRoot::Semi(a)) => semi(out, a, n),
+                _ => unc(out, n),
+            }
+            return Ok(());
+        }
         if ext {
             out.push(!in_root);
             if !in_root {
+                self.cells.insert("integer:ext-out-of-root".to_string());
                 unc(out, n);
                 return Ok(());
             }
         } else if !in_root {
             return Err(format!("integer {} outside {:?}", n, root));
         }
+        self.cells.insert(match root {
+            IntRoot::Unconstrained => "integer:unconstrained".to_string(),
+            IntRoot::Constrained(a, b) => format!("integer:range-width-{}{}", range_class((b - a) as u128 + 1), if ext { ":ext-in-root" } else { "" }),
+            IntRoot::Semi(_) => "integer:semi-constrained".to_string(),
+            IntRoot::UpperOnly(_) => "integer:upper-bound-only".to_string(),
+        });
         match root {
             IntRoot::Unconstrained => unc(out, n),
             IntRoot::Constrained(a, b) => cwn(out, a, b, n),
@@ -467,6 +548,10 @@ impl<'a> Enc<'a> {
             IntRoot::Semi(a) => {
                 self.classes.insert("int-semi");
                 if self.dev.int_semi_as_constrained_i64max {
+                    if i64::MAX as i128 - a > i64::MAX as i128 {
+                        // the 63-bit constrained form cannot span a negative lower bound up to i64::MAX: asn1rs refuses
+                        return Err("deviation-model:refused".into());
+                    }
                     cwn(out, a, i64::MAX as i128, n)
                 } else {
                     semi(out, a, n)
@@ -550,6 +635,7 @@ impl<'a> Enc<'a> {
                     }
                 }
             }
+            self.cells.insert(format!("sequence:additions-{}", match adds.len() { 1 => "1", 2..=8 => "2-8", _ => ">8" }));
             nsl(out, adds.len());
             for k in &add_order {
                 out.push(present[nroot + *k]);
@@ -568,6 +654,7 @@ impl<'a> Enc<'a> {
                     if o.is_empty() {
                         self.classes.insert("open-empty");
                     }
+                    self.cells.insert(format!("sequence:addition:open-type-octets-{}", match (o.len() + 7) / 8 { 0 => "0", 1..=127 => "<128", _ => ">=128" }));
                     open(out, &o, self.dev.open_type_empty_len0);
                 }
             }
